@@ -3,6 +3,7 @@ import common
 import wire
 
 LEVEL = 'proof'
+TRUSTED_EXTRA = ['harness/pytrans.py: fail-closed translator hpfeeds/protocol.py -> coq/ProtoGen.v (regenerated on every run) and coq/PyPrim.v, its reading of the Python fragment used there (dynamic values, slices, struct.pack/unpack for !B and !iB, len of a str = code points, exceptions); the translated text is proved equal to the hand-written Wire.v in coq/ProtoGenEq.v, and the *_src_* theorems are about the translated text']
 ASSUMPTIONS = ['a Python str is identified with its UTF-8 encoding (CPython codec is a bijection on valid UTF-8)',
                'struct.pack/unpack "!iB"/"!B" behave as big-endian two\'s complement',
                'frames of 2^31 bytes or more (struct.error in msghdr) are outside the modelled range']
